@@ -525,12 +525,42 @@ fn main() {
                 Err(_) => println!("{}", json!({"panic": true})),
             }
         }
+        "best_units" => {
+            // best_units <json list>: build a converter whose best units for `time` are the given names (`m` is a unit of length)
+            let file = format!(r#"{{"quantity":[
+                {{"quantity":"time","best":{best},"units":[{{"names":["minute"],"symbols":["min"],"ratio":60}},{{"names":["second"],"symbols":["s"],"ratio":1}}]}},
+                {{"quantity":"length","best":["m"],"units":[{{"names":["metre"],"symbols":["m"],"ratio":1}}]}},
+                {{"quantity":"volume","best":["l"],"units":[{{"names":["litre"],"symbols":["l"],"ratio":1}}]}},
+                {{"quantity":"mass","best":["g"],"units":[{{"names":["gram"],"symbols":["g"],"ratio":1}}]}},
+                {{"quantity":"temperature","best":["C"],"units":[{{"names":["celsius"],"symbols":["C"],"ratio":1}}]}}]}}"#, best = args[2]);
+            let uf: cooklang::convert::units_file::UnitsFile = match serde_json::from_str(&file) { Ok(u) => u, Err(e) => { println!("{}", json!({"outcome": "bad-scenario", "detail": e.to_string()})); return; } };
+            match std::panic::catch_unwind(|| Converter::builder().with_units_file(uf).and_then(|b| b.finish())) {
+                Ok(Ok(c)) => {
+                    // a built converter: the best units of time are units of time
+                    let wrong: Vec<String> = c.best_units(cooklang::convert::PhysicalQuantity::Time, None).iter().filter(|u| u.physical_quantity != cooklang::convert::PhysicalQuantity::Time).map(|u| u.symbol().to_string()).collect();
+                    if wrong.is_empty() { println!("{}", json!({"outcome": "ok"})) } else { println!("{}", json!({"outcome": "inconsistent", "detail": format!("best units of time contain {:?}", wrong)})) }
+                }
+                Ok(Err(e)) => println!("{}", json!({"outcome": "error", "detail": e.to_string()})),
+                Err(_) => println!("{}", json!({"outcome": "panic"})),
+            }
+        }
         "aisle" => {
             // aisle <text>: the aisle configuration parser through the public API
             let text = args[2].replace("\\n", "\n");
             match std::panic::catch_unwind(|| match cooklang::aisle::parse(&text) {
                 Ok(conf) => json!({"categories": conf.categories.iter().map(|c| json!([c.name, c.ingredients.iter().map(|i| i.names.clone()).collect::<Vec<_>>()])).collect::<Vec<_>>()}),
-                Err(e) => json!({"error_kind": match e { cooklang::aisle::AisleConfError::Parse { .. } => "Parse", cooklang::aisle::AisleConfError::DuplicateCategory { .. } => "DuplicateCategory", cooklang::aisle::AisleConfError::DuplicateIngredient { .. } => "DuplicateIngredient" }}),
+                Err(e) => {
+                    use cooklang::aisle::AisleConfError as E;
+                    let (kind, spans, name): (&str, Vec<cooklang::span::Span>, Option<String>) = match &e {
+                        E::Parse { span, .. } => ("Parse", vec![*span], None),
+                        E::DuplicateCategory { name, first_span, second_span } => ("DuplicateCategory", vec![*first_span, *second_span], Some(name.clone())),
+                        E::DuplicateIngredient { name, first_span, second_span } => ("DuplicateIngredient", vec![*first_span, *second_span], Some(name.clone())),
+                    };
+                    // every span lies inside the input, on character boundaries, and (for duplicates) covers the duplicated name
+                    let span_ok = spans.iter().all(|sp| sp.start() <= sp.end() && sp.end() <= text.len() && text.is_char_boundary(sp.start()) && text.is_char_boundary(sp.end())
+                        && name.as_ref().map(|n| &text[sp.range()] == n.as_str()).unwrap_or(true));
+                    json!({"error_kind": kind, "span_ok": span_ok, "spans": spans.iter().map(|sp| vec![sp.start(), sp.end()]).collect::<Vec<_>>()})
+                }
             }) {
                 Ok(v) => println!("{}", v),
                 Err(_) => println!("{}", json!({"panic": true})),
@@ -647,6 +677,25 @@ fn main() {
                     }
                     for &j in cw.relation.referenced_from() {
                         match recipe.cookware.get(j) { Some(r) if r.relation.references_to() == Some(i) => {}, _ => problems.push(format!("cookware {i} lists {j} as a reference, but {j} does not point back")) }
+                    }
+                }
+                // step items address existing components, in document order
+                let (mut last_i, mut last_c, mut last_t): (Option<usize>, Option<usize>, Option<usize>) = (None, None, None);
+                for sec in &recipe.sections {
+                    for content in &sec.content {
+                        if let cooklang::Content::Step(step) = content {
+                            for item in &step.items {
+                                let (what, idx, len, last) = match item {
+                                    cooklang::Item::Ingredient { index } => ("ingredient", *index, recipe.ingredients.len(), &mut last_i),
+                                    cooklang::Item::Cookware { index } => ("cookware", *index, recipe.cookware.len(), &mut last_c),
+                                    cooklang::Item::Timer { index } => ("timer", *index, recipe.timers.len(), &mut last_t),
+                                    _ => continue,
+                                };
+                                if idx >= len { problems.push(format!("a step item addresses {what} {idx}, but there are only {len}")); }
+                                if let Some(l) = *last { if idx <= l { problems.push(format!("step items address {what} {idx} after {l}: not in document order")); } }
+                                *last = Some(idx);
+                            }
+                        }
                     }
                 }
                 for (i, t) in recipe.timers.iter().enumerate() {
